@@ -316,7 +316,9 @@ func (c *Cache) Stop() {
 func (c *Cache) startWorker(ch chan *EventSubscription) {
 	for eventSub := range ch {
 		verifPoint("cache.pickup")
+		verifBusy(1)
 		eventSub.processQueue()
+		verifBusy(-1)
 	}
 }
 
